@@ -1,3 +1,4 @@
+pub mod book;
 pub mod c01;
 pub mod c06;
 pub mod c13;
